@@ -6,5 +6,7 @@ import (
 	"io"
 )
 
-func newFlate(w io.Writer) (*flate.Writer, error) { return flate.NewWriter(w, flate.DefaultCompression) }
-func crc(b []byte) uint32                         { return crc32.ChecksumIEEE(b) }
+func newFlate(w io.Writer) (*flate.Writer, error) {
+	return flate.NewWriter(w, flate.DefaultCompression)
+}
+func crc(b []byte) uint32 { return crc32.ChecksumIEEE(b) }
